@@ -19,7 +19,7 @@ func init() {
 	Register(&Def{
 		Prop: "C18", Name: "persist", Level: "fault_enumeration",
 		Build:        buildC18,
-		Cfg:          sim.RunConfig{Grace: time.Second, Horizon: time.Hour, StepCap: 1000},
+		Cfg:          sim.RunConfig{Grace: time.Second, Horizon: time.Hour, StepCap: 100000},
 		RunsQuick:    1600,
 		RunsThorough: 200000,
 		Real: []string{"provider/auth manager (Save/Del/Flush/Reset/All) + jsonProvider (LoadAll/Flush)", "provider/route routetable + jsonProvider",
@@ -33,7 +33,7 @@ func init() {
 			"crash = process death: every completed file-system call persists, nothing of a call not yet made does (no power-loss reordering of unsynced data)",
 			"the users/routes files exist before the history starts (so the default-administrator fallback is never legitimate)",
 		},
-		RequiredProbes: []string{"c18.crash-fired", "c18.torn-write-fired", "c18.error-fired", "c18.first-flush-creates-the-file"},
+		RequiredProbes: []string{"c18.crash-fired", "c18.torn-write-fired", "c18.error-fired", "c18.first-flush-creates-the-file", "c18.flush-after-crash"},
 	})
 }
 
@@ -508,6 +508,38 @@ func buildC18(tier string) sim.Scenario {
 					what := fmt.Sprintf("%s during %s (history op %d), fs ops of this flush: %v", out.fired, op.Kind, i, simfs.Cur.Log[rng[0]-1:min(len(simfs.Cur.Log), rng[1])])
 					if out.crashed {
 						checkRestart(out, op.Kind, base.durableAt(i, ops, true), base.durableAt(i, ops, false), what+", then process death and restart")
+						if !w.Failed() {
+							// life goes on after the crash: the restarted server shrinks both tables, flushes them without any
+							// fault (whatever the dead process left behind - a half-written temporary file - must not leak
+							// into the new files) and is restarted once more
+							simfs.Cur.Plan = nil
+							for k, u := range auth.All() {
+								if k > 0 {
+									auth.Del(u.Name)
+								}
+							}
+							for _, r := range route.All() {
+								route.Del(r.Pattern)
+							}
+							wantU, _ := c18ActualUsers()
+							wantR, _ := c18ActualRoutes()
+							ferrU, ferrR := auth.Flush(), route.Flush()
+							w.Probe("c18.flush-after-crash")
+							if ferrU != nil || ferrR != nil {
+								w.Fail("C18/flush-error", "%s, restart, deletes, then a fault-free flush failed: %v %v", what, ferrU, ferrR)
+								return
+							}
+							if err := c18Restart(); err != nil {
+								w.Fail("C18/restart-failed", "%s, restart, deletes, fault-free flush, second restart: %v (users file %d bytes, routes file %d bytes)", what, err, len(simfs.Cur.Files[c18UsersFile]), len(simfs.Cur.Files[c18RoutesFile]))
+								return
+							}
+							gotU, _ := c18ActualUsers()
+							gotR, _ := c18ActualRoutes()
+							if gotU != wantU || gotR != wantR {
+								w.Fail("C18/reload-mismatch", "%s, restart, deletes, fault-free flush, second restart: loaded users %q routes %q, flushed users %q routes %q", what, gotU, gotR, wantU, wantR)
+								return
+							}
+						}
 					} else {
 						if out.flushErr == nil && strings.HasPrefix(out.fired, "error-at-write") {
 							w.Fail("C18/error-swallowed", "%s: the write failed but Flush reported success", what)
